@@ -89,7 +89,7 @@ class VersionConverter(object):
         for elem in parsed_doc:
             if elem == 'sections':
                 cls._parse_dict_sections(root, parsed_doc['sections'])
-            elif elem:
+            elif elem and parsed_doc[elem] is not None:
                 curr_element = ET.Element(elem)
                 curr_element.text = cls._dict_text(parsed_doc[elem])
                 root.append(curr_element)
@@ -128,7 +128,7 @@ class VersionConverter(object):
                     cls._parse_dict_properties(sec, section['properties'])
                 elif element == 'sections':
                     cls._parse_dict_sections(sec, section['sections'])
-                elif element:
+                elif element and section[element] is not None:
                     elem = ET.Element(element)
                     elem.text = cls._dict_text(section[element])
                     sec.append(elem)
@@ -151,7 +151,7 @@ class VersionConverter(object):
             for element in curr_prop:
                 if element == 'values':
                     cls._parse_dict_values(prop, curr_prop['values'])
-                elif element:
+                elif element and curr_prop[element] is not None:
                     elem = ET.Element(element)
                     elem.text = cls._dict_text(curr_prop[element])
                     prop.append(elem)
